@@ -20,7 +20,18 @@ fn tw(a: &[u32], b: &[u32]) -> S {
     <S as SymmetricMonoidal>::twist(sf(a.to_vec()), sf(b.to_vec()))
 }
 
+/// composition / tensor through the method or through the operator sugar
+fn cmp(sugar: bool, a: &S, b: &S) -> Option<S> {
+    if sugar { a >> b } else { a.compose(b) }
+}
+fn ten(sugar: bool, a: &S, b: &S) -> S {
+    if sugar { a | b } else { a.tensor(b) }
+}
+
 fn params(r: &mut Rng, thorough: bool) -> OhParams {
+    if thorough && r.chance(1, 15) {
+        return OhParams { max_nodes: 24, max_edges: 16, max_arity: 3, max_iface: 6, node_labels: 4, edge_labels: 40 };
+    }
     match r.below(5) {
         0 => OhParams::tiny(),
         1..=3 => OhParams { max_nodes: 5, max_edges: 4, max_arity: 3, max_iface: 3, node_labels: 2, edge_labels: 3 },
@@ -79,8 +90,10 @@ impl C03 {
             ctx.nontrivial(&("assoc", &f, &g, &h));
         }
         let (lf, lg, lh) = (to_strict(&f), to_strict(&g), to_strict(&h));
-        let lhs = lib(ctx, "compose", "assoc", &input, || lf.compose(&lg).and_then(|x| x.compose(&lh))).flatten();
-        let rhs = lib(ctx, "compose", "assoc", &input, || lg.compose(&lh).and_then(|x| lf.compose(&x))).flatten();
+        let sugar = r.chance(1, 2);
+        ctx.count(if sugar { "via:operator_sugar" } else { "via:methods" });
+        let lhs = lib(ctx, "compose", "assoc", &input, || cmp(sugar, &lf, &lg).and_then(|x| cmp(sugar, &x, &lh))).flatten();
+        let rhs = lib(ctx, "compose", "assoc", &input, || cmp(sugar, &lg, &lh).and_then(|x| cmp(sugar, &lf, &x))).flatten();
         law(ctx, "associativity", "composable_triple", lhs, rhs, &input);
         ctx.sample("associativity", || input());
     }
@@ -95,8 +108,10 @@ impl C03 {
             ctx.nontrivial(&("id", &f));
         }
         let lf = to_strict(&f);
-        let l = lib(ctx, "compose", "identity", &input, || id_on(&f.src_type()).compose(&lf)).flatten();
-        let rr = lib(ctx, "compose", "identity", &input, || lf.compose(&id_on(&f.tgt_type()))).flatten();
+        let sugar = r.chance(1, 2);
+        ctx.count(if sugar { "via:operator_sugar" } else { "via:methods" });
+        let l = lib(ctx, "compose", "identity", &input, || cmp(sugar, &id_on(&f.src_type()), &lf)).flatten();
+        let rr = lib(ctx, "compose", "identity", &input, || cmp(sugar, &lf, &id_on(&f.tgt_type()))).flatten();
         law(ctx, "left-identity", "any", l, Some(to_strict(&f)), &input);
         law(ctx, "right-identity", "any", rr, Some(to_strict(&f)), &input);
         ctx.sample("identity", || input());
@@ -113,8 +128,10 @@ impl C03 {
             ctx.nontrivial(&("interchange", &f, &g, &h, &k));
         }
         let (lf, lg, lh, lk) = (to_strict(&f), to_strict(&g), to_strict(&h), to_strict(&k));
-        let lhs = lib(ctx, "compose+tensor", "interchange", &input, || Some(lf.compose(&lg)?.tensor(&lh.compose(&lk)?))).flatten();
-        let rhs = lib(ctx, "compose+tensor", "interchange", &input, || lf.tensor(&lh).compose(&lg.tensor(&lk))).flatten();
+        let sugar = r.chance(1, 2);
+        ctx.count(if sugar { "via:operator_sugar" } else { "via:methods" });
+        let lhs = lib(ctx, "compose+tensor", "interchange", &input, || Some(ten(sugar, &cmp(sugar, &lf, &lg)?, &cmp(sugar, &lh, &lk)?))).flatten();
+        let rhs = lib(ctx, "compose+tensor", "interchange", &input, || cmp(sugar, &ten(sugar, &lf, &lh), &ten(sugar, &lg, &lk))).flatten();
         law(ctx, "interchange", "pair_of_composable_pairs", lhs, rhs, &input);
         ctx.sample("interchange", || input());
     }
@@ -163,8 +180,10 @@ impl C03 {
         }
         let (lf, lg) = (to_strict(&f), to_strict(&g));
         // (f ⊗ g) ; σ_{B1,B2}  ≅  σ_{A1,A2} ; (g ⊗ f)
-        let lhs = lib(ctx, "tensor;twist", "naturality", &input, || lf.tensor(&lg).compose(&tw(&f.tgt_type(), &g.tgt_type()))).flatten();
-        let rhs = lib(ctx, "twist;tensor", "naturality", &input, || tw(&f.src_type(), &g.src_type()).compose(&lg.tensor(&lf))).flatten();
+        let sugar = r.chance(1, 2);
+        ctx.count(if sugar { "via:operator_sugar" } else { "via:methods" });
+        let lhs = lib(ctx, "tensor;twist", "naturality", &input, || cmp(sugar, &ten(sugar, &lf, &lg), &tw(&f.tgt_type(), &g.tgt_type()))).flatten();
+        let rhs = lib(ctx, "twist;tensor", "naturality", &input, || cmp(sugar, &tw(&f.src_type(), &g.src_type()), &ten(sugar, &lg, &lf))).flatten();
         law(ctx, "twist-naturality", "arbitrary_pair", lhs, rhs, &input);
         // naturality in each argument separately
         let ida = id_on(&g.src_type());
@@ -190,7 +209,7 @@ impl Monitor for C03 {
         "cases: fixed object lists (empty objects, repeated labels) then seeded instances of each law: composable triples (associativity), single diagrams (left/right identity), \
          pairs of composable pairs (interchange), arbitrary pairs incl. non-monogamous and cyclic ones (naturality of the symmetry, jointly and per argument), object lists of \
          length 0-4 over 2 labels (symmetry type, self-inverse, both hexagons). In half of the instances every hyperedge gets a unique label so that wiring, not label histograms, \
-         decides. Both sides are computed through the public API (compose, tensor, identity, twist) and compared by the isomorphism search with pinned interfaces. non-trivial = \
+         decides. Both sides are computed through the public API (compose, tensor, identity, twist; in half of the instances through the operator sugar `>>` and `|` instead of the methods) and compared by the isomorphism search with pinned interfaces. non-trivial = \
          instance with >=1 hyperedge and a non-empty boundary (for object laws: both objects non-empty); distinct = hash of the instance."
     }
     fn corpus_len(&self) -> u64 {
@@ -212,6 +231,8 @@ impl Monitor for C03 {
             ("class:cyclic_operand", 50),
             ("class:repeated_boundary_nodes", 50),
             ("class:edge_with_two_distinct_sources", 50),
+            ("via:operator_sugar", 200),
+            ("via:methods", 200),
         ]
     }
     fn run_case(&self, idx: u64, r: &mut Rng, ctx: &mut Ctx) {
